@@ -18,7 +18,8 @@ from translate import c10gen  # noqa: E402
 PROPS = "QuriVerif.Props.C10"
 GENMOD = "QuriVerif.Generated.C10Tables"
 ENTRY = "DriverC10.lean"
-LEAN_TARGETS = [PROPS, "QuriVerif.Driver.C10"]
+LIFT = "QuriVerif.Props.C10Lift"
+LEAN_TARGETS = [PROPS, LIFT, "QuriVerif.Driver.C10"]
 LEAN_TARGETS_THOROUGH = ["QuriVerif.Props.C10Deep"]
 
 KEY_F6 = "combine-duplicates-shared-in-params"
@@ -2107,10 +2108,11 @@ def run(ctx: Ctx, replay=None) -> int:
     ctx.extra["binary_is_not_built_from_repo"] = True
     gen(ctx)
     ok = ctx.prove(LEAN_TARGETS + (["QuriVerif.Props.C10Deep"] if not ctx.quick() else []),
-                   [PROPS, GENMOD] + (["QuriVerif.Props.C10Deep"] if not ctx.quick() else []))
+                   [PROPS, LIFT, GENMOD] + (["QuriVerif.Props.C10Deep"] if not ctx.quick() else []))
     if ok:
         names = [f"QV.Props.C10.{n}" for _, n, _ in ctx.count_obligations([PROPS])]
-        ctx.audit(names, [PROPS, "QuriVerif.Driver.C10"])
+        names += [f"QV.Props.C10Lift.{n}" for _, n, _ in ctx.count_obligations([LIFT])]
+        ctx.audit(names, [PROPS, LIFT, "QuriVerif.Driver.C10"])
     driver_ok = ok or _driver_builds(ctx)
     if replay:
         run_replay(ctx, replay)
